@@ -406,3 +406,51 @@ def c03(tier, seed):
                   step("app2", "recv_dgram", ms=500)]
         add(role, "wt", steps, {"family": "wt-wt"})
     return out
+
+
+# ----------------------------------------------------------------------------- C06
+
+C06_CODES = [0, 63, 64, 16383, 16384, (1 << 30) - 1, 1 << 30, (1 << 62) - 1]
+
+
+def c06(tier, seed, scripts):
+    """scripts: operation histories printed by TLC (StreamLifeGen): lists of
+    {side, op, code, n}."""
+    rng = random.Random(seed * 7919 + 6)
+    out = []
+    layouts = [("client", "uni", "fwd"), ("server", "uni", "fwd"), ("client", "bi", "fwd"),
+               ("server", "bi", "fwd"), ("client", "bi", "ret"), ("server", "bi", "ret")]
+    for n, ops in enumerate(scripts):
+        role, kind, direction = layouts[n % len(layouts)]
+        if direction == "fwd":
+            sside, rside = "app", "app2"
+        else:
+            sside, rside = "app2", "app"
+        salt = n % 190
+        steps = [step("app", "open_" + kind, tag="s"),
+                 step("app2", "accept_" + kind, tag="s", ms=5000),
+                 sleep(20)]
+        k = 0
+        for o in ops:
+            who = sside if o["side"] == "S" else rside
+            code = C06_CODES[(n + k) % len(C06_CODES)]
+            k += 1
+            if o["op"] == "write":
+                steps.append(step(who, "write", tag="s", len=o["n"], salt=salt, ms=3000))
+            elif o["op"] == "finish":
+                steps.append(step(who, "finish", tag="s", ms=3000))
+            elif o["op"] == "reset":
+                steps.append(step(who, "reset", tag="s", code=v62(code)))
+            elif o["op"] == "stopped":
+                steps.append(step(who, "stopped", tag="s", ms=300))
+            elif o["op"] == "read":
+                steps.append(step(who, "read", tag="s", buf=2, salt=salt, ms=300))
+            elif o["op"] == "stop":
+                steps.append(step(who, "stop", tag="s", code=v62(code)))
+            steps.append(sleep(40))
+        out.append({"scn": "C06-%05d" % n, "role": role, "peer": "wt",
+                    "meta": {"prop": "C06", "sside": sside, "rside": rside, "stag": "s", "rtag": "s",
+                             "nops": len(ops), "kind": kind, "dir": direction,
+                             "ops": [o["op"] for o in ops]},
+                    "steps": steps})
+    return out
